@@ -187,6 +187,26 @@ def run_group(group, out):
                         % (impl, group['compression'], group['threshold'], j2, ae, text),
                         {'impl': impl, 'compression': group['compression'], 'threshold': group['threshold'],
                          'case': [[], j2, ae]}, weight=(0, 0)))
+        # compression switched off on the running server (http_compression is a public attribute): from then on nothing is
+        # compressed, whatever the threshold and the offer
+        if group['compression']:
+            sid4 = peer.sid_of(peer.open_polling(w))
+            if sid4 is not None:
+                w.server.http_compression = False
+                try:
+                    w.call('send', sid4, 'z' * (group['threshold'] + 40))
+                    w.run()
+                    g = peer.poll(w, sid4, headers={'Accept-Encoding': 'gzip, deflate'})
+                    n += 1
+                    for kind, text in judge(g, '4' + 'z' * (group['threshold'] + 40), None, 'gzip, deflate', False, group['threshold']):
+                        out.append(report.Violation(
+                            {'impl': impl, 'kind': kind, 'trigger': 'compression_switched_off'},
+                            '[%s threshold=%d AE=gzip, deflate poll after http_compression was set to False on the running server] %s'
+                            % (impl, group['threshold'], text),
+                            {'impl': impl, 'compression': group['compression'], 'threshold': group['threshold'],
+                             'case': [[], None, 'gzip']}, weight=(0, 0)))
+                finally:
+                    w.server.http_compression = True
         # refusals pass the same compression step: a sequence of failing POSTs (each on a session of its own) with and
         # without compression on offer - each 400 decodes, by its own headers, to the refusal text
         for ae in ('gzip', None, 'deflate', 'gzip'):
